@@ -556,7 +556,8 @@ pub fn check_nt(c: &NtCase, ctx: &mut Ctx) -> CheckResult {
     // 5. Jordan algebra
     {
         let xy = k.circ(x, y);
-        nclose(&xy, &jordan(cone, x, y), 64.0 * EPS * (n as f64 + 1.0), "circ_op vs the Jordan product")?;
+        // measured against |x||y|: the product itself can cancel to zero (x o y = 0 for orthogonal-like pairs)
+        opclose(&xy, &jordan(cone, x, y), 64.0 * EPS * (n as f64 + 1.0), norm_inf(x), norm_inf(y), "circ_op vs the Jordan product")?;
         let lam = wz.clone();
         let ads = k.affine_ds(s);
         nclose(&ads, &jordan(cone, &lam, &lam), tol, "affine_ds vs lambda o lambda")?;
